@@ -8,6 +8,7 @@
 import Cog.Closed.Frame
 import Cog.Closed.FilterProofs
 import Cog.Passes.Chain
+import Cog.Closed.InferEntrypoint
 namespace Cog.Closed
 open Cog Cog.IR Cog.Passes
 open Cog.OMap (rget rset)
@@ -122,7 +123,7 @@ end dv
 theorem closed_runDisjPass (hook : Schemas → Schema → DisjHook) (S S' : Schemas) (hc : Closed S)
     (hh : ∀ cur, ∀ s ∈ S, ∀ bs i m t', (∀ u ∈ Ty.uses s.pkg (.disj bs i m), resolves S u = true) →
       hook cur s bs i m = .ok t' → ∀ u ∈ Ty.uses s.pkg t', resolves S u = true)
-    (h : runDisjPass hook S = .ok S') : Closed S' := by
+    (h : runDisjPass hook S = .ok S') : Closed S' ∧ KeysMono S S' := by
   apply closed_visitPure (fun cur s => dvTy (hook cur s)) S S' hc ?_ h
   intro cur s hs t t' hq ht
   exact dv_good s.pkg (hook cur s) (fun u => resolves S u = true) (hh cur s hs) t t' hq ht
@@ -154,7 +155,7 @@ theorem usesList_mem (home : String) : ∀ (bs : List Ty) (t : Ty), t ∈ bs →
     · exact Or.inr (usesList_mem home bs t h u hu)
 
 theorem C_disjunctionWithNullToOptional (S S' : Schemas) (hc : Closed S)
-    (h : DisjunctionWithNullToOptional.run S = .ok S') : Closed S' := by
+    (h : DisjunctionWithNullToOptional.run S = .ok S') : Closed S' ∧ KeysMono S S' := by
   apply closed_runDisjPass _ S S' hc ?_ h
   intro cur s _ bs i m t' hq ht
   simp only [DisjunctionWithNullToOptional.hook] at ht
@@ -173,7 +174,7 @@ theorem C_disjunctionWithNullToOptional (S S' : Schemas) (hc : Closed S)
 /-! ### DisjunctionOfConstantsToEnum, UndiscriminatedDisjunctionToAny -/
 
 theorem C_disjunctionOfConstantsToEnum (S S' : Schemas) (hc : Closed S)
-    (h : DisjunctionOfConstantsToEnum.run S = .ok S') : Closed S' := by
+    (h : DisjunctionOfConstantsToEnum.run S = .ok S') : Closed S' ∧ KeysMono S S' := by
   apply closed_runDisjPass _ S S' hc ?_ h
   intro cur s _ bs i m t' hq ht
   simp only [DisjunctionOfConstantsToEnum.hook] at ht
@@ -187,7 +188,7 @@ theorem C_disjunctionOfConstantsToEnum (S S' : Schemas) (hc : Closed S)
     · cases ht
 
 theorem C_undiscriminatedDisjunctionToAny (S S' : Schemas) (hc : Closed S)
-    (h : UndiscriminatedDisjunctionToAny.run S = .ok S') : Closed S' := by
+    (h : UndiscriminatedDisjunctionToAny.run S = .ok S') : Closed S' ∧ KeysMono S S' := by
   apply closed_runDisjPass _ S S' hc ?_ h
   intro cur s _ bs i m t' hq ht
   simp only [UndiscriminatedDisjunctionToAny.hook] at ht
@@ -233,7 +234,7 @@ theorem nr_usesFields (home : String) : ∀ fs : List Field,
 end
 
 theorem C_notRequiredFieldAsNullableType (S S' : Schemas) (hc : Closed S)
-    (h : NotRequiredFieldAsNullableType.run S = .ok S') : Closed S' := by
+    (h : NotRequiredFieldAsNullableType.run S = .ok S') : Closed S' ∧ KeysMono S S' := by
   apply closed_visitPure (fun _ _ t => .ok (NotRequiredFieldAsNullableType.vTy t)) S S' hc ?_ h
   intro cur s _ t t' hq ht
   simp only [Outcome.ok.injEq] at ht; subst ht
@@ -339,7 +340,7 @@ theorem usesList_of_mem (home : String) (P : Use → Prop) : ∀ (ts : List Ty),
     · exact usesList_of_mem home P ts (fun t' ht' => h t' (List.mem_cons_of_mem _ ht')) u hu
 
 theorem C_flattenDisjunctions (S S' : Schemas) (hc : Closed S)
-    (h : FlattenDisjunctions.run S = .ok S') : Closed S' := by
+    (h : FlattenDisjunctions.run S = .ok S') : Closed S' ∧ KeysMono S S' := by
   apply closed_runDisjPass _ S S' hc ?_ h
   intro cur s hs bs i m t' hq ht
   simp only [FlattenDisjunctions.hook] at ht
@@ -426,7 +427,7 @@ theorem build_mem (s : Schema) (fuel : Nat) (disc : String) : ∀ (bs : List Ty)
 end Infer
 
 theorem C_disjunctionInferMapping (S S' : Schemas) (hc : Closed S) (hup : (S.map (·.pkg)).Nodup)
-    (h : DisjunctionInferMapping.run S = .ok S') : Closed S' := by
+    (h : DisjunctionInferMapping.run S = .ok S') : Closed S' ∧ KeysMono S S' := by
   apply closed_runDisjPass _ S S' hc ?_ h
   intro cur s hs bs i m t' hq ht
   simp only [DisjunctionInferMapping.hookWith] at ht
@@ -474,15 +475,17 @@ def SSame (s s' : Schema) : Prop :=
   s'.pkg = s.pkg ∧ s'.entryPoint = s.entryPoint ∧ s'.entryPointType = s.entryPointType ∧
   All2 (fun e e' => e'.1 = e.1 ∧ ObjSame e.2 e'.2) s.objects s'.objects
 
-theorem closed_same (S S' : Schemas) (hc : Closed S) (hall : All2 SSame S S') : Closed S' := by
+theorem closed_same (S S' : Schemas) (hc : Closed S) (hall : All2 SSame S S') : Closed S' ∧ KeysMono S S' := by
   have hcl := (closed_iff S).mp hc
-  apply closed_of_mono hc
-  · apply forall2_imp hall
+  have hm : KeysMono S S' := by
+    apply forall2_imp hall
     rintro s s' _ ⟨hp, _, _, ho⟩
     refine ⟨hp, ?_⟩
     rintro k ⟨e, he, rfl⟩
     obtain ⟨e', he', hr⟩ := ho.mem_left he
     exact ⟨e', he', hr.1⟩
+  refine ⟨?_, hm⟩
+  apply closed_of_mono hc hm
   · intro s' hs' e' he'
     obtain ⟨s, hs, hp, _, _, ho⟩ := hall.mem_right hs'
     obtain ⟨e, he, hk, hn, h1, h2, _⟩ := ho.mem_right he'
@@ -506,7 +509,7 @@ theorem closed_same (S S' : Schemas) (hc : Closed S) (hall : All2 SSame S S') : 
       exact hc3 e he u hu
 
 theorem C_renameNumericEnumValues (S S' : Schemas) (hc : Closed S)
-    (h : RenameNumericEnumValues.run S = .ok S') : Closed S' := by
+    (h : RenameNumericEnumValues.run S = .ok S') : Closed S' ∧ KeysMono S S' := by
   simp only [RenameNumericEnumValues.run, Outcome.ok.injEq] at h
   subst h
   apply closed_same S _ hc
@@ -574,7 +577,7 @@ theorem processObjects_all2 : ∀ (l r : Objects), processObjects l = .ok r →
 end PEV
 
 theorem C_prefixEnumValues (S S' : Schemas) (hc : Closed S)
-    (h : PrefixEnumValues.run S = .ok S') : Closed S' := by
+    (h : PrefixEnumValues.run S = .ok S') : Closed S' ∧ KeysMono S S' := by
   apply closed_same S S' hc
   apply forall2_imp (mapM_all2 _ S S' h)
   intro s s' _ hs
@@ -585,5 +588,184 @@ theorem C_prefixEnumValues (S S' : Schemas) (hc : Closed S)
     exact ⟨rfl, rfl, rfl, PEV.processObjects_all2 _ _ ho⟩
   | err e => simp [ho] at hs
   | panic e => simp [ho] at hs
+
+/-! ### SanitizeEnumMemberNames -/
+
+mutual
+theorem san_uses (home : String) : ∀ (t t' : Ty), SanitizeEnumMemberNames.vTy t = .ok t' → Ty.uses home t' = Ty.uses home t
+  | .scalar .., t', h => by simp only [SanitizeEnumMemberNames.vTy, Outcome.ok.injEq] at h; subst h; rfl
+  | .ref .., t', h => by simp only [SanitizeEnumMemberNames.vTy, Outcome.ok.injEq] at h; subst h; rfl
+  | .cref .., t', h => by simp only [SanitizeEnumMemberNames.vTy, Outcome.ok.injEq] at h; subst h; rfl
+  | .array e m, t', h => by
+    simp only [SanitizeEnumMemberNames.vTy] at h
+    cases he : SanitizeEnumMemberNames.vTy e with
+    | ok e' => simp only [he, Outcome.ok.injEq] at h; subst h; simp [Ty.uses, san_uses home e e' he]
+    | err x => simp [he] at h
+    | panic x => simp [he] at h
+  | .map i v m, t', h => by
+    simp only [SanitizeEnumMemberNames.vTy] at h
+    cases he : SanitizeEnumMemberNames.vTy v with
+    | ok v' => simp only [he, Outcome.ok.injEq] at h; subst h; simp [Ty.uses, san_uses home v v' he]
+    | err x => simp [he] at h
+    | panic x => simp [he] at h
+  | .struct fs g gi m, t', h => by
+    simp only [SanitizeEnumMemberNames.vTy] at h
+    cases he : SanitizeEnumMemberNames.vFields fs with
+    | ok fs' => simp only [he, Outcome.ok.injEq] at h; subst h; simp [Ty.uses, san_usesFields home fs fs' he]
+    | err x => simp [he] at h
+    | panic x => simp [he] at h
+  | .enum vs m, t', h => by
+    simp only [SanitizeEnumMemberNames.vTy] at h
+    cases he : SanitizeEnumMemberNames.sanitizeMembers vs with
+    | ok vs' => simp only [he, Outcome.ok.injEq] at h; subst h; simp [Ty.uses]
+    | err x => simp [he] at h
+    | panic x => simp [he] at h
+  | .disj bs i m, t', h => by
+    simp only [SanitizeEnumMemberNames.vTy] at h
+    cases he : SanitizeEnumMemberNames.vList bs with
+    | ok bs' => simp only [he, Outcome.ok.injEq] at h; subst h; simp [Ty.uses, san_usesList home bs bs' he]
+    | err x => simp [he] at h
+    | panic x => simp [he] at h
+  | .inter bs m, t', h => by
+    simp only [SanitizeEnumMemberNames.vTy] at h
+    cases he : SanitizeEnumMemberNames.vList bs with
+    | ok bs' => simp only [he, Outcome.ok.injEq] at h; subst h; simp [Ty.uses, san_usesList home bs bs' he]
+    | err x => simp [he] at h
+    | panic x => simp [he] at h
+  | .slot .., t', h => by simp only [SanitizeEnumMemberNames.vTy, Outcome.ok.injEq] at h; subst h; rfl
+  | .bad .., t', h => by simp only [SanitizeEnumMemberNames.vTy, Outcome.ok.injEq] at h; subst h; rfl
+theorem san_usesList (home : String) : ∀ (ts ts' : List Ty), SanitizeEnumMemberNames.vList ts = .ok ts' →
+    Ty.usesList home ts' = Ty.usesList home ts
+  | [], ts', h => by simp only [SanitizeEnumMemberNames.vList, Outcome.ok.injEq] at h; subst h; rfl
+  | t :: ts, ts', h => by
+    simp only [SanitizeEnumMemberNames.vList] at h
+    cases he : SanitizeEnumMemberNames.vTy t with
+    | ok t1 =>
+      simp only [he] at h
+      cases hl : SanitizeEnumMemberNames.vList ts with
+      | ok ts1 =>
+        simp only [hl, Outcome.ok.injEq] at h; subst h
+        simp [Ty.usesList, san_uses home t t1 he, san_usesList home ts ts1 hl]
+      | err x => simp [hl] at h
+      | panic x => simp [hl] at h
+    | err x => simp [he] at h
+    | panic x => simp [he] at h
+theorem san_usesFields (home : String) : ∀ (fs fs' : List Field), SanitizeEnumMemberNames.vFields fs = .ok fs' →
+    Ty.usesFields home fs' = Ty.usesFields home fs
+  | [], fs', h => by simp only [SanitizeEnumMemberNames.vFields, Outcome.ok.injEq] at h; subst h; rfl
+  | f :: fs, fs', h => by
+    simp only [SanitizeEnumMemberNames.vFields] at h
+    cases he : SanitizeEnumMemberNames.vTy f.ty with
+    | ok t1 =>
+      simp only [he] at h
+      cases hl : SanitizeEnumMemberNames.vFields fs with
+      | ok fs1 =>
+        simp only [hl, Outcome.ok.injEq] at h; subst h
+        simp [Ty.usesFields, san_uses home f.ty t1 he, san_usesFields home fs fs1 hl]
+      | err x => simp [hl] at h
+      | panic x => simp [hl] at h
+    | err x => simp [he] at h
+    | panic x => simp [he] at h
+end
+
+theorem C_sanitizeEnumMemberNames (S S' : Schemas) (hc : Closed S)
+    (h : SanitizeEnumMemberNames.run S = .ok S') : Closed S' ∧ KeysMono S S' := by
+  apply closed_visitPure (fun _ _ t => SanitizeEnumMemberNames.vTy t) S S' hc ?_ h
+  intro cur s _ t t' hq ht
+  rw [san_uses s.pkg t t' ht]; exact hq
+
+/-! ### InferEntrypoint (chains of the jsonschema / openapi output languages) -/
+
+theorem infer_mem (s : Schema) : InferEntrypoint.infer s = "" ∨ ∃ kv ∈ s.objects, kv.2.name = InferEntrypoint.infer s := by
+  simp only [InferEntrypoint.infer]
+  suffices h : ∀ (l : List (String × Obj)) (acc : String), (acc = "" ∨ ∃ kv ∈ s.objects, kv.2.name = acc) →
+      (∀ kv ∈ l, kv ∈ s.objects) →
+      (l.foldl (fun acc kv => if Cog.Xform.eqFold s.pkg kv.2.name then kv.2.name else acc) acc = "" ∨
+       ∃ kv ∈ s.objects, kv.2.name = l.foldl (fun acc kv => if Cog.Xform.eqFold s.pkg kv.2.name then kv.2.name else acc) acc) by
+    exact h s.objects "" (Or.inl rfl) (fun _ h => h)
+  intro l
+  induction l with
+  | nil => intro acc h _; simpa using h
+  | cons x rest ih =>
+    intro acc h hm
+    simp only [List.foldl_cons]
+    apply ih
+    · split
+      · exact Or.inr ⟨x, hm x (by simp), rfl⟩
+      · exact h
+    · intro kv hkv; exact hm kv (List.mem_cons_of_mem _ hkv)
+
+theorem C_inferEntrypoint (S S' : Schemas) (hc : Closed S) (hup : (S.map (·.pkg)).Nodup)
+    (h : InferEntrypoint.run S = .ok S') : Closed S' ∧ KeysMono S S' := by
+  simp only [InferEntrypoint.run, Outcome.ok.injEq] at h
+  subst h
+  have hcl := (closed_iff S).mp hc
+  have hall := all2_map InferEntrypoint.processSchema S
+  have hobj : ∀ s, (InferEntrypoint.processSchema s).objects = s.objects ∧ (InferEntrypoint.processSchema s).pkg = s.pkg := by
+    intro s
+    simp only [InferEntrypoint.processSchema]
+    split
+    · exact ⟨rfl, rfl⟩
+    · split
+      · exact ⟨rfl, rfl⟩
+      · split <;> exact ⟨rfl, rfl⟩
+  have hm : KeysMono S (S.map InferEntrypoint.processSchema) := by
+    apply forall2_imp hall
+    rintro s s' _ rfl
+    exact ⟨(hobj s).2, fun k hk => by rw [(hobj s).1]; exact hk⟩
+  refine ⟨?_, hm⟩
+  apply closed_of_mono hc hm
+  · intro s' hs' e he
+    obtain ⟨s, hs, rfl⟩ := List.mem_map.mp hs'
+    rw [(hobj s).1] at he
+    have := hcl.1 s hs e he
+    simpa [selfOK, (hobj s).2] using this
+  · apply refPositions_forall2 hall (fun u => resolves S u = true ∨ resolves (S.map InferEntrypoint.processSchema) u = true)
+    rintro s s' hs rfl r hr
+    obtain ⟨hc1, hc2, hc3⟩ := uses_of_closed hc hs
+    left
+    simp only [schemaUses, List.mem_append, List.mem_flatMap, objUses, List.mem_map, (hobj s).1, (hobj s).2] at hr
+    rcases hr with hr | ⟨e, he, u, hu, rfl⟩
+    · -- entry point: kept as it was, or set to an existing object of this schema
+      have old : ∀ r ∈ entryUses s, resolves S r.use = true := by
+        intro r hr
+        exact ((closed_iff S).mp hc).2 s hs |>.1 r hr
+      simp only [InferEntrypoint.processSchema] at hr
+      split at hr
+      · exact old r hr
+      · split at hr
+        · exact old r hr
+        · rename_i hne1 hne2
+          have hloc := FilterSchemas.locate_unique S hup s hs
+          rcases infer_mem s with h0 | ⟨kv, hkv, hname⟩
+          · simp [h0] at hne2
+          · have hself := hcl.1 s hs kv hkv
+            rw [selfOK_iff] at hself
+            have hkey : kv.1 = InferEntrypoint.infer s := by rw [hself.1, hname]
+            have hres : ∀ k, resolves S ⟨k, s.pkg, InferEntrypoint.infer s⟩ = true := by
+              intro k
+              rw [resolves_iff]
+              exact Or.inr ⟨s, hloc, kv, hkv, hkey⟩
+            split at hr
+            · rename_i o ho
+              have hm := rget_some_mem _ _ _ ho
+              have hso := hcl.1 s hs _ hm
+              rw [selfOK_iff] at hso
+              simp only [entryUses, List.mem_append, List.mem_map, Ty.uses, List.mem_singleton] at hr
+              rcases hr with hr | ⟨u, hu, rfl⟩
+              · split at hr
+                · simp at hr
+                · simp only [List.mem_singleton] at hr; subst hr; exact hres _
+              · subst hu
+                simp only
+                have : o.selfName = InferEntrypoint.infer s := by rw [hso.2.2, ← hso.1]
+                rw [hso.2.1, this]
+                exact hres _
+            · rename_i hnone
+              exfalso
+              have : (rget (InferEntrypoint.infer s) s.objects).isSome = true :=
+                (rget_isSome_iff _ _).mpr ⟨kv, hkv, hkey⟩
+              simp [hnone] at this
+    · exact hc3 e he u hu
 
 end Cog.Closed
